@@ -420,3 +420,89 @@ def task_state_progress(case, rp):
                             found_by='exhaustive native enumeration (%d pairs)' % n)
     return dict(confirmed=False, detail='all %d (current, target) pairs satisfy '
                 'the clauses natively' % n)
+
+
+# ------------------------------------------------------------------------------
+# C16
+#
+def get_pubsub_fwd(rp, module, src, tgt, from_proxy):
+    """obtain the real nested function pubsub_fwd by running the real
+    Session.crosswire_pubsub with the zmq end points replaced by recorders"""
+    import radical.utils as ru
+    from radical.pilot.session import Session
+    puts, box = [], {}
+
+    class Pub:
+        def __init__(self, *a, **k): pass
+        def put(self, topic, msg): puts.append((topic, copy.deepcopy(msg)))
+
+    class Sub:
+        def __init__(self, *a, **k): box['cb'] = k['cb']
+    s = object.__new__(Session)
+    s._log, s._prof = Stub(), Stub()
+    s._module = module
+    s._to_stop = []
+    s._cfg = type('C', (), {'path': '/tmp'})()
+    s._reg = {'bridges.%s.addr_sub' % src.lower(): 'x',
+              'bridges.%s.addr_pub' % tgt.lower(): 'y'}
+    saved = ru.zmq.Publisher, ru.zmq.Subscriber
+    ru.zmq.Publisher, ru.zmq.Subscriber = Pub, Sub
+    try:
+        s.crosswire_pubsub(src=src, tgt=tgt, from_proxy=from_proxy)
+    finally:
+        ru.zmq.Publisher, ru.zmq.Subscriber = saved
+    return box['cb'], puts
+
+
+def check_hop(rp, module, from_proxy, msg):
+    cb, puts = get_pubsub_fwd(rp, module, 'a_pubsub', 'b_pubsub', from_proxy)
+    m = copy.deepcopy(msg)
+    eff = m.get('origin', module)
+    try:
+        cb('a_pubsub', m)
+    except Exception as e:
+        return ['raised %r' % e]
+    probs = []
+    if m.get('origin') != eff:
+        probs.append('origin is %r, expected %r' % (m.get('origin'), eff))
+    if from_proxy:
+        want = (eff != module)
+    else:
+        want = (msg.get('fwd') is True and eff == module)
+    if len(puts) != (1 if want else 0):
+        probs.append('%d message(s) forwarded, expected %d'
+                     % (len(puts), 1 if want else 0))
+    if want and puts:
+        if puts[0][0] != 'b_pubsub': probs.append('forwarded to %s' % puts[0][0])
+        if not from_proxy and puts[0][1].get('fwd') is not False:
+            probs.append('forward flag not cleared on the forwarded message')
+        if puts[0][1].get('origin') != eff:
+            probs.append('forwarded message has origin %r' % puts[0][1].get('origin'))
+    return probs
+
+
+@builder('session.py:Session.crosswire_pubsub.pubsub_fwd')
+def pubsub_fwd(case, rp):
+    m = case.get('model') or {}
+    module = m.get('self._module') or 'client'
+    msg = {k: v for k, v in (m.get('msg') or {}).items() if v is not None}
+    if m.get('msg'):
+        probs = check_hop(rp, module, bool(m.get('from_proxy')), msg)
+        if probs:
+            return dict(confirmed=True, detail='; '.join(probs),
+                        input=dict(module=module, from_proxy=m.get('from_proxy'), msg=msg))
+    n = 0
+    for fp in (False, True):
+        for fwd in ('absent', True, False):
+            for origin in ('absent', 'client', 'pilot.0000'):
+                n += 1
+                msg = {'cmd': 'x', 'arg': 1}
+                if fwd != 'absent': msg['fwd'] = fwd
+                if origin != 'absent': msg['origin'] = origin
+                probs = check_hop(rp, 'client', fp, msg)
+                if probs:
+                    return dict(confirmed=True, detail='; '.join(probs),
+                                input=dict(module='client', from_proxy=fp, msg=msg),
+                                found_by='exhaustive native enumeration (%d cases)' % n)
+    return dict(confirmed=False, detail='all %d flag/origin/direction cases '
+                'satisfy the hop contract natively' % n)
